@@ -26,7 +26,7 @@ BasicOk(k) ==
   ELSE IF Malformed(e) THEN ~k.decoded
   ELSE TRUE
 POk(k) == /\ ~k.ub
-          /\ CASE k.op = "rt" -> /\ k.e = Encode(k.s)
+          /\ CASE k.op = "rt" -> /\ k.e = Encode(k.s) /\ k.raweq         \* raweq: base64_encode_raw produced the same text
                                  /\ k.en1 <= EncLen(k.ek1) /\ k.en2 <= EncLen(k.ek2) /\ k.enf <= 3
                                  /\ Promise(k) /\ Accepted(k) /\ k.out = k.s
                [] k.op = "dec" -> DecOk(k, k.e)
